@@ -163,6 +163,7 @@ type Cmd struct {
 	ByTag       bool
 	Exec        bool
 	ExecErr     bool // Execute returns a sentinel error
+	ExecHelp    bool // Execute returns a *flags.Error of type ErrHelp (the application's own help)
 	G           *Grp // the command's own struct (for Exec commands: the first AddGroup'ed struct)
 	Pos         *PosDecl
 	Subs        []*Cmd
@@ -565,6 +566,9 @@ func makeCallback(o *Opt, log *CallLog) reflect.Value {
 			as = append(as, Canon(a))
 		}
 		log.add("callback", id, as)
+		if o.T.W == WFunc1PErr {
+			return []reflect.Value{reflect.Zero(reflect.TypeOf((*PErr)(nil)))}
+		}
 		if o.T.W == WFunc1Err || o.T.W == WFunc0Err {
 			if o.CallbackErr {
 				return []reflect.Value{reflect.ValueOf(&callbackErr).Elem()}
@@ -762,6 +766,10 @@ func (d *Decl) attach(b *Built, c *Cmd, log *CallLog) {
 			sc.Node = &ExecNode{id: sc.ID, log: log}
 			if sc.ExecErr {
 				sc.Node.ret = &sentinelErr{sc.ID}
+			}
+			if sc.ExecHelp {
+				// the application answers with its own help request
+				sc.Node.ret = &flags.Error{Type: flags.ErrHelp, Message: fmt.Sprintf("application help of command %d", sc.ID)}
 			}
 			fc, err = c.FC.AddCommand(sc.Name, sc.Desc, sc.LongDesc, sc.Node)
 			if err == nil {
